@@ -27,17 +27,19 @@ structure CtlInv (s : Sys) : Prop where
   idle : s.waiting = false → busy s = 0 ∧ s.pending = []
   stall1 : s.stallCh ≤ 1
   indisc : s.inDone = true → s.disc = true
+  hsdisc : (s.hs = .abandoned ∨ s.hs = .drained) → s.disc = true
+  unstarted : s.hs ≠ .started → s.qh = .main ∧ s.oh = .main ∧ s.sendQ = [] ∧ s.pending = []
 
 theorem ctl_init (ids : List Nat) : CtlInv (init ids) := by
   constructor <;> simp [init, busy, OPhase.busy]
 
 theorem ctl_step (c : Cfg) (s : Sys) (ch : Choice) (h : CtlInv s) : CtlInv (step c s ch) := by
-  obtain ⟨h1, h2, h3, h4, h5, h6, h7, h8, h9⟩ := h
+  obtain ⟨h1, h2, h3, h4, h5, h6, h7, h8, h9, h10, h11⟩ := h
   unfold step
-  cases ch <;> simp only [stepOpt]
+  cases ch <;> simp only [stepOpt, hStep]
   all_goals (repeat' split)
   all_goals (simp only [Option.getD_some, Option.getD_none])
-  all_goals (first | exact ⟨h1, h2, h3, h4, h5, h6, h7, h8, h9⟩ | skip)
+  all_goals (first | exact ⟨h1, h2, h3, h4, h5, h6, h7, h8, h9, h10, h11⟩ | skip)
   all_goals (constructor <;> simp_all [busy, OPhase.busy] <;> try omega)
 
 /-- Stall-handler invariant of the repaired handler: it is gone only when both the in and the
@@ -54,7 +56,7 @@ theorem stall_step (c : Cfg) (hb : c.stallBug = false) (s : Sys) (ch : Choice) (
     StallInv (step c s ch) := by
   obtain ⟨h1, h2⟩ := h
   unfold step
-  cases ch <;> simp only [stepOpt]
+  cases ch <;> simp only [stepOpt, hStep]
   all_goals (repeat' split)
   all_goals (simp only [Option.getD_some, Option.getD_none])
   all_goals (first | exact ⟨h1, h2⟩ | skip)
@@ -79,7 +81,7 @@ theorem cnt_step (c : Cfg) (ids : List Nat) (s : Sys) (ch : Choice)
   have hx := h x
   clear h
   unfold step
-  cases ch <;> simp only [stepOpt]
+  cases ch <;> simp only [stepOpt, hStep]
   case check m =>
     split
     · rename_i hg
@@ -133,8 +135,9 @@ theorem fifo_step (c : Cfg) (s : Sys) (ch : Choice) (hc : CtlInv s) (h : FifoInv
   have hb := hc.busy1
   have hq := hc.qdisc
   have ho := hc.odisc
+  have hhs := hc.hsdisc
   unfold step
-  cases ch <;> simp only [stepOpt]
+  cases ch <;> simp only [stepOpt, hStep]
   all_goals (repeat' split)
   all_goals (simp only [Option.getD_some, Option.getD_none])
   all_goals (first | exact ⟨⟨t, hpre⟩, heq, hsb, hws⟩ | skip)
@@ -147,7 +150,8 @@ theorem fifo_step (c : Cfg) (s : Sys) (ch : Choice) (hc : CtlInv s) (h : FifoInv
 /-! ### messages queued before the disconnect request -/
 
 def SbInv (ids : List Nat) (s : Sys) : Prop :=
-  ∀ m ∈ s.sentBefore, m ∉ s.todo ∧ m ∉ s.checked ∧ (s.qh = .done → m ∉ s.outQ) ∧ 1 ≤ ids.count m
+  ∀ m ∈ s.sentBefore, m ∉ s.todo ∧ m ∉ s.checked ∧
+    ((s.qh = .done ∨ s.hs = .drained) → m ∉ s.outQ) ∧ 1 ≤ ids.count m
 
 theorem sb_init (ids : List Nat) : SbInv ids (init ids) := by
   intro m hm; simp [init] at hm
@@ -157,7 +161,7 @@ theorem sb_step (c : Cfg) (ids : List Nat) (s : Sys) (ch : Choice) (hn : ids.Nod
     SbInv ids (step c s ch) := by
   have hq := hc.qdisc
   unfold step
-  cases ch <;> simp only [stepOpt]
+  cases ch <;> simp only [stepOpt, hStep]
   case check m' =>
     split
     · rename_i hg
@@ -177,7 +181,7 @@ theorem sb_step (c : Cfg) (ids : List Nat) (s : Sys) (ch : Choice) (hn : ids.Nod
       have hpos : 0 < s.checked.count m' := List.count_pos_iff.2 hg.1
       simp only [places, List.count_append] at hcm
       have old : ∀ m ∈ s.sentBefore, m ∉ s.todo ∧ m ∉ s.checked.erase m' ∧
-          (s.qh = .done → m ∉ s.outQ ++ [m']) ∧ 1 ≤ ids.count m := by
+          ((s.qh = .done ∨ s.hs = .drained) → m ∉ s.outQ ++ [m']) ∧ 1 ≤ ids.count m := by
         intro m hm
         have hm' := h m hm
         refine ⟨hm'.1, fun hh => hm'.2.1 (List.mem_of_mem_erase hh), ?_, hm'.2.2.2⟩
@@ -203,7 +207,10 @@ theorem sb_step (c : Cfg) (ids : List Nat) (s : Sys) (ch : Choice) (hn : ids.Nod
             rw [List.count_erase_self] at this
             omega
           · intro hd'
-            have : s.disc = true := hq (by rw [hd']; intro e; cases e)
+            have : s.disc = true := by
+              rcases hd' with hd' | hd'
+              · exact hq (by rw [hd']; intro e; cases e)
+              · exact hc.hsdisc (Or.inr hd')
             exact absurd this hd
     · simpa using h
   all_goals (repeat' split)
@@ -252,18 +259,24 @@ theorem done_count_le (ids : List Nat) (hn : ids.Nodup) (s : Sys) (h : Inv ids s
   simp only [places, List.count_append] at h1
   omega
 
+theorem final_places (s : Sys) (hc : CtlInv s) (hf : final s = true) :
+    s.pending = [] ∧ s.sendQ = [] ∧ s.oh.held = [] ∧ (s.qh = .done ∨ s.hs = .drained) := by
+  simp only [final, Bool.decide_or, Bool.or_eq_true, decide_eq_true_eq] at hf
+  rcases hf with hf | hf
+  · exact ⟨hc.qpend (Or.inr hf.2.1), hc.osend hf.2.2.1, by simp [hf.2.2.1, OPhase.held], Or.inl hf.2.1⟩
+  · have := hc.unstarted (by rw [hf]; intro e; cases e)
+    exact ⟨this.2.2.2, this.2.2.1, by simp [this.2.1, OPhase.held], Or.inr hf⟩
+
 theorem done_exactly_once (ids : List Nat) (hn : ids.Nodup) (s : Sys) (h : Inv ids s)
     (hf : final s = true) (m : Nat) (hm : m ∈ s.sentBefore) : s.done.count m = 1 := by
   have h1 := h.cnt m
   have h2 : ids.count m ≤ 1 := List.nodup_iff_count.1 hn m
   obtain ⟨a, b, c', d⟩ := h.sb m hm
-  simp only [final, decide_eq_true_eq] at hf
-  have hp := h.ctl.qpend (Or.inr hf.1)
-  have hs := h.ctl.osend hf.2.1
+  obtain ⟨hp, hs, hh, hq⟩ := final_places s h.ctl hf
   have c0 : s.todo.count m = 0 := List.count_eq_zero.2 a
   have c1 : s.checked.count m = 0 := List.count_eq_zero.2 b
-  have c2 : s.outQ.count m = 0 := List.count_eq_zero.2 (c' hf.1)
-  simp only [places, List.count_append, hp, hs, hf.2.1, OPhase.held, List.count_nil] at h1
+  have c2 : s.outQ.count m = 0 := List.count_eq_zero.2 (c' hq)
+  simp only [places, List.count_append, hp, hs, hh, List.count_nil] at h1
   omega
 
 /-- Complete accounting: when the handlers are done and no caller is still inside
@@ -276,10 +289,8 @@ theorem all_done_once (ids : List Nat) (hn : ids.Nodup) (s : Sys) (h : Inv ids s
     have := List.nodup_iff_count.1 hn m
     have : 0 < ids.count m := List.count_pos_iff.2 hm
     omega
-  simp only [final, decide_eq_true_eq] at hf
-  have hp := h.ctl.qpend (Or.inr hf.1)
-  have hs := h.ctl.osend hf.2.1
-  simp only [places, List.count_append, hp, hs, hf.2.1, OPhase.held, List.count_nil, h0, h1, h2] at hc
+  obtain ⟨hp, hs, hh, _⟩ := final_places s h.ctl hf
+  simp only [places, List.count_append, hp, hs, hh, List.count_nil, h0, h1, h2] at hc
   omega
 
 /-! ### termination -/
@@ -295,14 +306,17 @@ def SPhase.w : SPhase → Nat
   | .running si so => if si || so then 2 else 3
   | .done => 0
 
+def HPhase.w : HPhase → Nat
+  | .pre => 3 | .abandoned => 2 | .started => 0 | .drained => 0
+
 def measure (s : Sys) : Nat :=
   12 * s.todo.length + 11 * s.checked.length + 10 * s.outQ.length + 9 * s.pending.length +
-    8 * s.sendQ.length + s.oh.w + s.qh.w + s.sendDone + s.sh.w + s.stallCh +
+    8 * s.sendQ.length + s.oh.w + s.qh.w + s.sendDone + s.sh.w + s.stallCh + s.hs.w +
     (if s.disc then 0 else 1) + (if s.connLost then 0 else 1) + (if s.inDone then 0 else 1)
 
 theorem step_decreases (c : Cfg) (s s' : Sys) (ch : Choice) (h : stepOpt c s ch = some s') :
     measure s' < measure s := by
-  cases ch <;> simp only [stepOpt] at h
+  cases ch <;> simp only [stepOpt, hStep] at h
   case check m =>
     split at h
     · rename_i hg
@@ -322,7 +336,7 @@ theorem step_decreases (c : Cfg) (s s' : Sys) (ch : Choice) (h : stepOpt c s ch 
   all_goals (repeat' split at h)
   all_goals (first | (cases h; done) | skip)
   all_goals (simp only [Option.some.injEq] at h; subst h)
-  all_goals (simp_all [measure, QPhase.w, OPhase.w, SPhase.w] <;> (try split) <;> (try simp_all) <;> try omega)
+  all_goals (simp_all [measure, QPhase.w, OPhase.w, SPhase.w, HPhase.w] <;> (try split) <;> (try simp_all) <;> try omega)
 
 /-- Number of scheduler choices of `sched` that were enabled when taken. -/
 def effective (c : Cfg) : Sys → List Choice → Nat
@@ -345,48 +359,53 @@ theorem effective_le (c : Cfg) : ∀ (sched : List Choice) (s : Sys),
 /-- After the disconnect request, as long as a handler goroutine is still alive one of the
 handler actions is enabled (no deadlock among queueHandler / outHandler / inHandler /
 stallHandler) — for the repaired stall handler. -/
-theorem progress (c : Cfg) (s : Sys) (hc : CtlInv s) (hst : StallInv s)
+theorem progress (c : Cfg) (hdb : c.drainBug = false) (s : Sys) (hc : CtlInv s) (hst : StallInv s)
     (hd : s.disc = true) (hf : final s = false) :
-    ∃ ch ∈ [Choice.qQuit, .qStep, .oQuit, .oStep, .iExit, .sRecv, .sInQuit, .sOutQuit],
-      (stepOpt c s ch).isSome := by
+    ∃ ch ∈ [Choice.qQuit, .qStep, .oQuit, .oStep, .iExit, .sRecv, .sInQuit, .sOutQuit, .abandon,
+      .aStep], (stepOpt c s ch).isSome := by
   have hb := hc.busy1
   have hs1 := hc.stall1
+  cases hh : s.hs with
+  | pre => exact ⟨.abandon, by simp, by simp [stepOpt, hh, hd]⟩
+  | abandoned => exact ⟨.aStep, by simp, by simp [stepOpt, hh, hdb] <;> split <;> simp⟩
+  | drained => simp [final, hh] at hf
+  | started =>
   cases hq : s.qh with
-  | main => exact ⟨.qQuit, by simp, by simp [stepOpt, hq, hd]⟩
-  | drain => exact ⟨.qStep, by simp, by simp only [stepOpt, hq]; split <;> simp⟩
-  | cleanup => exact ⟨.qStep, by simp, by simp only [stepOpt, hq]; split <;> simp⟩
+  | main => exact ⟨.qQuit, by simp, by simp [stepOpt, hStep, hh, hq, hd]⟩
+  | drain => exact ⟨.qStep, by simp, by simp [stepOpt, hStep, hh, hq] <;> split <;> simp⟩
+  | cleanup => exact ⟨.qStep, by simp, by simp [stepOpt, hStep, hh, hq] <;> split <;> simp⟩
   | done =>
     cases ho : s.oh with
-    | main => exact ⟨.oQuit, by simp, by simp [stepOpt, ho, hd]⟩
+    | main => exact ⟨.oQuit, by simp, by simp [stepOpt, hStep, hh, ho, hd]⟩
     | holding m =>
       by_cases hfull : s.stallCh < 1
-      · exact ⟨.oStep, by simp, by simp [stepOpt, ho, hfull]⟩
+      · exact ⟨.oStep, by simp, by simp [stepOpt, hStep, hh, ho, hfull]⟩
       · -- the buffer is full: the stall handler is still there (it leaves only after outHandler)
         cases hsh : s.sh with
         | done => have := (hst.gone hsh).1; simp [ho] at this
         | running si so =>
           refine ⟨.sRecv, by simp, ?_⟩
           have : 0 < s.stallCh := by omega
-          simp [stepOpt, hsh, this]
-    | announced m => exact ⟨.oStep, by simp, by simp only [stepOpt, ho]; split <;> (try split) <;> simp⟩
-    | wrote m ok => exact ⟨.oStep, by simp, by simp [stepOpt, ho]⟩
+          simp [stepOpt, hStep, hh, hsh, this]
+    | announced m => exact ⟨.oStep, by simp, by simp [stepOpt, hStep, hh, ho] <;> split <;> (try split) <;> simp⟩
+    | wrote m ok => exact ⟨.oStep, by simp, by simp [stepOpt, hStep, hh, ho]⟩
     | owesDone =>
       have : s.sendDone = 0 := by simp [busy, OPhase.busy, ho] at hb; omega
-      exact ⟨.oStep, by simp, by simp [stepOpt, ho, this]⟩
-    | waitQ => exact ⟨.oStep, by simp, by simp [stepOpt, ho, hq]⟩
-    | cleanup => exact ⟨.oStep, by simp, by simp only [stepOpt, ho]; split <;> simp⟩
+      exact ⟨.oStep, by simp, by simp [stepOpt, hStep, hh, ho, this]⟩
+    | waitQ => exact ⟨.oStep, by simp, by simp [stepOpt, hStep, hh, ho, hq]⟩
+    | cleanup => exact ⟨.oStep, by simp, by simp [stepOpt, hStep, hh, ho] <;> split <;> simp⟩
     | done =>
       cases hin : s.inDone with
-      | false => exact ⟨.iExit, by simp, by simp [stepOpt, hd, hin]⟩
+      | false => exact ⟨.iExit, by simp, by simp [stepOpt, hStep, hh, hd, hin]⟩
       | true =>
         cases hsh : s.sh with
-        | done => simp [final, hq, ho, hin, hsh] at hf
+        | done => simp [final, hh, hq, ho, hin, hsh] at hf
         | running si so =>
           cases si with
-          | false => exact ⟨.sInQuit, by simp, by simp [stepOpt, hsh, hin]; split <;> simp⟩
+          | false => exact ⟨.sInQuit, by simp, by simp [stepOpt, hStep, hh, hsh, hin] <;> split <;> simp⟩
           | true =>
             cases so with
-            | false => exact ⟨.sOutQuit, by simp, by simp [stepOpt, hsh, ho]⟩
+            | false => exact ⟨.sOutQuit, by simp, by simp [stepOpt, hStep, hh, hsh, ho]⟩
             | true =>
               -- both observed cannot persist: the second observation leaves
               exact absurd ⟨rfl, rfl⟩ (hst.seen true true hsh).2.2
